@@ -2,11 +2,13 @@ package lib
 
 import (
 	"bytes"
+	"context"
 	"errors"
 	"fmt"
 	"io"
 	"os"
 	"strings"
+	"syscall"
 
 	"github.com/tdewolff/minify/v2/verifsync"
 
@@ -121,6 +123,12 @@ func c14Case(env *Env, tape *sim.Tape) *CaseOut {
 	if cmdRaw%1024 == 1023 && os.Getenv("VERIF_NO_CMD") == "" {
 		doc = corpus.Doc{MT: []string{MTCmd, MTCmdIn, MTCmdOut, MTCmdFile}[cmdRaw/1024], Name: "builtin/cmd", Src: "builtin",
 			Data: []byte("an external command copies these bytes, all of them, to its output")[:1+truncRaw%64]}
+		if truncRaw/64%6 == 5 {
+			// more output than a pipe buffer holds (64 KiB) plus a few copy rounds: a failing
+			// writer leaves the command blocked on its output unless somebody drains or closes it
+			doc.Data = bytes.Repeat([]byte("0123456789abcdef"), (100<<10+truncRaw/512%(200<<10))/16)
+			out.stat("probe_external_command_large_output", 1)
+		}
 		di = len(env.Corpus) + cmdRaw/1024
 		embed, truncOn = 0, false
 		if entry != EMatch {
@@ -201,7 +209,17 @@ func c14Case(env *Env, tape *sim.Tape) *CaseOut {
 	// "done", every one is a failure that has to surface
 	writeErr := sim.ErrInjectedWrite
 	if kw >= 0 {
-		switch kwRaw / 7 % 12 {
+		switch kwRaw / 7 % 18 {
+		case 12:
+			writeErr = sim.ErrInjectedEPIPE
+		case 13:
+			writeErr = sim.ErrInjectedECONNRESET
+		case 14:
+			writeErr = context.Canceled
+		case 15:
+			writeErr = os.ErrDeadlineExceeded
+		case 16:
+			writeErr = syscall.EPIPE
 		case 7:
 			writeErr = io.EOF
 		case 8:
@@ -256,6 +274,8 @@ func c14Case(env *Env, tape *sim.Tape) *CaseOut {
 	}
 	var sv *sim.Violation
 	var st RunStats
+	CurrentSite = fmt.Sprintf("%s:%s:%s", entryNames[entry], mt, fkNames[fk]) // what the hang watchdog reports
+	defer func() { CurrentSite = "" }()
 	if entry == EPlain || entry == EMatch {
 		op.Exec(nil, m)
 	} else {
